@@ -2,15 +2,17 @@ SPECIFICATION MCSpec
 CONSTANTS
   Actor = {"a", "b", "c", "x"}
   Creator = "a"
-  Initial <- InitialABC
-  Kinds = {"add", "remove", "promote", "demote"}
-  AccessArgs <- ArgsPlain
-  Replica = {}
-  MaxOps = 3
+  Initial <- InitialABCm
+  Kinds = {"add", "remove"}
+  AccessArgs <- ArgsManage
+  Replica = {r1, r2}
+  MaxOps = 4
   MaxRejected = 0
   Defect_TieBreakByPartialCmp = FALSE
   Defect_NoopModifyUnchecked = FALSE
   Defect_RecreateAccepted = FALSE
 INVARIANTS
-  ExportHistory
-CHECK_DEADLOCK FALSE
+  C31_Convergence
+  C31_IncrementalEqualsRebuild
+  C31_VerdictsAgree
+SYMMETRY ReplicaSymmetry
